@@ -73,7 +73,7 @@ def build(inp):
     qc = QubitCircuit(inp["nq"], num_cbits=inp["nc"])
     for o in inp["ops"]:
         if o["k"] == "meas":
-            qc.add_measurement("M", targets=[o["t"]], classical_store=o["c"])
+            qc.add_measurement(o.get("mname") or "M", targets=[o["t"]], classical_store=o["c"])
         else:
             kw = {}
             if o["name"] in PARAM_GATES:
@@ -110,7 +110,7 @@ def run_impl(inp, via="layout"):
         for g in qc.gates:
             if isinstance(g, Measurement):
                 assert len(g.targets) == 1
-                seen.append(dict(k="meas", t=int(g.targets[0]), c=int(g.classical_store)))
+                seen.append(dict(k="meas", t=int(g.targets[0]), c=int(g.classical_store), mname=str(g.name)))
             else:
                 assert isinstance(g, Gate)
                 seen.append(dict(k="gate", name=str(g.name), arg_label=g.arg_label,
@@ -215,7 +215,8 @@ def oracle(inp, rows, ops=None):
         txt = op_text(o)
         if sh == "meas":
             where.append(("box", o["t"], len(expected[o["t"]])))
-            expected[o["t"]].append("M")
+            # the box of a measurement is labelled "M" (the renderer's fixed label) or with the measurement's name
+            expected[o["t"]].append(("M", o.get("mname") or "M"))
         elif sh == "single":
             w = o["targets"][0]
             where.append(("box", w, len(expected[w])))
@@ -234,11 +235,13 @@ def oracle(inp, rows, ops=None):
             if len(content) < 2 * P:
                 return ("box narrower than its padding", content, 2 * P)
             got.append(content[P:len(content) - P])
-        if got != expected[w]:
-            return (f"labels read on wire {w} from left to right", got, expected[w])
+        if len(got) != len(expected[w]) or any((g not in e) if isinstance(e, tuple) else (g != e)
+                                                for g, e in zip(got, expected[w])):
+            return (f"labels read on wire {w} from left to right", got,
+                    [e if isinstance(e, str) else "|".join(sorted(set(e))) for e in expected[w]])
 
     # --- exactly these: the number of link glyphs on every wire is the number of links touching it
-    texts = "".join(op_text(o) for o in ops)
+    texts = "".join(op_text(o) + (o.get("mname") or "" if o["k"] == "meas" else "") for o in ops)
     if not any(ch in texts for ch in "█╳╩║│"):
         want = {w: dict.fromkeys("█╳╩║│", 0) for w in range(n)}
         for o in ops:
@@ -415,6 +418,8 @@ SINGLE = ["X", "Y", "Z", "H", "S", "T", "SNOT", "SQRTNOT", "RX", "RY", "RZ", "R"
 TWO = ["ISWAP", "SQRTSWAP", "SQRTISWAP", "BERKELEY", "SWAPALPHA", "MS", "RZX"]
 CTRL1 = ["CNOT", "CX", "CY", "CZ", "CS", "CT", "CSIGN", "CRX", "CRY", "CRZ", "CPHASE"]
 LABELS = ["π/2", "θ", "0.5", "-π", "a", "ab", "φ 1", "U", "long label", "x" * 9, "R(π/4)", "", "k", "[1]", "│", "┤x"]
+# measurement names of length 1-4 (odd and even): the box of a measurement and its link must agree in width
+MNAMES = ["M", "M", "M0", "M1", "MZ", "MX", "MZ1", "Mq0", "m", "MEAS", "M_ab"]
 WLAB = ["a", "bb", "anc", "data0", "", "q", "reg 1", "Ψ", "out", "x:y"]
 
 
@@ -444,7 +449,7 @@ def gen_op(rng, nq, nc, wild):
     if nc and rng.random() < 0.12:
         cc = rng.sample(range(nc), rng.randint(1, nc))
     if nc and r < 0.16:
-        return dict(k="meas", t=rng.randrange(nq), c=rng.randrange(nc))
+        return dict(k="meas", t=rng.randrange(nq), c=rng.randrange(nc), mname=rng.choice(MNAMES))
     if r < 0.36 or nq == 1:
         name = rng.choice(SINGLE + ["MYG", "U1"])
         return dict(k="gate", name=name, targets=[rng.randrange(nq)], controls=None, arg_label=lab, cc=cc)
@@ -512,7 +517,7 @@ def directed_inputs():
     """Small hand-made inputs: one per branch of layout(), plus the known witnesses."""
     out = []
     g = lambda name, t, c=None, al=None, cc=None: dict(k="gate", name=name, targets=t, controls=c, arg_label=al, cc=cc)
-    m = lambda t, c: dict(k="meas", t=t, c=c)
+    m = lambda t, c, mname="M": dict(k="meas", t=t, c=c, mname=mname)
     S = lambda **k: dict(k)
     out.append(dict(nq=3, nc=0, ops=[g("FREDKIN", [0, 2], [1])], style={}))
     out.append(dict(nq=4, nc=0, ops=[g("FREDKIN", [0, 2], [3])], style={}))
@@ -529,6 +534,12 @@ def directed_inputs():
                     style=S(align=True, ext=0)))
     out.append(dict(nq=4, nc=0, ops=[g("CCU", [0], [1, 2]), g("CCU", [3], [0, 1]), g("CCU", [1], [0, 3], "odd")], style={}))
     out.append(dict(nq=3, nc=0, ops=[g("U3Q", [0, 1, 2]), g("U3Q", [2, 0, 1], [], "abc"), g("X", [1], [])], style=S(gate_pad=[2, 1])))
+    # named measurements (even and odd name lengths) followed by operations on the wires their links cross
+    out.append(dict(nq=3, nc=2, ops=[m(2, 0, "M0"), g("CNOT", [0], [1]), m(1, 1, "M1"), g("SWAP", [0, 2])], style=S(ext=0)))
+    out.append(dict(nq=3, nc=2, ops=[m(2, 1, "MZ")], style=S(ext=0)))
+    out.append(dict(nq=4, nc=3, ops=[m(3, 0, "MEAS"), g("CRX", [0], [2], "θ"), m(1, 2, "MZ1"), g("FREDKIN", [0, 1], [3]),
+                                     m(0, 1, "Mq")], style=S(align=True, gate_pad=[0, 1], ext=0)))
+    out.append(dict(nq=2, nc=1, ops=[m(1, 0, "M0"), m(0, 0, "M1"), g("H", [0])], style=S(gate_pad=[3, 2])))
     # two-digit default labels (q10, q11): the decimal printer of the model
     out.append(dict(nq=12, nc=1, ops=[g("CNOT", [11], [9]), g("H", [10]), m(11, 0), g("SWAP", [0, 10])], style={}))
     return out
